@@ -132,7 +132,7 @@ func main() {
 	}
 	sort.Slice(gl, func(i, j int) bool { return gl[i].Key < gl[j].Key })
 
-	evPath := filepath.Join("/verif/evidence", prop+".json")
+	evPath := filepath.Join(root(), "evidence", prop+".json")
 	if b, err := os.ReadFile(evPath); err == nil {
 		var e map[string]any
 		if json.Unmarshal(b, &e) == nil {
@@ -165,8 +165,8 @@ func main() {
 			nTarget--
 			continue
 		}
-		os.MkdirAll("/verif/replays", 0o755)
-		p := filepath.Join("/verif/replays", fmt.Sprintf("%s-race-%s.txt", prop, g.Key))
+		os.MkdirAll(filepath.Join(root(), "replays"), 0o755)
+		p := filepath.Join(root(), "replays", fmt.Sprintf("%s-race-%s.txt", prop, g.Key))
 		os.WriteFile(p, []byte(g.Example+"\n"), 0o644)
 		fmt.Printf("VIOLATION property=%s replay=%s\n  data race (%d reports): %s\n", prop, p, g.Count, strings.Join(g.TopFuncs, " <-> "))
 	}
@@ -186,6 +186,13 @@ func main() {
 	os.Exit(code)
 }
 
+func root() string {
+	if v := os.Getenv("VERIF_ROOT"); v != "" {
+		return v
+	}
+	return "/verif"
+}
+
 func raceSig(tops []string) string {
 	s := append([]string(nil), tops...)
 	for i := range s {
@@ -199,7 +206,7 @@ func raceSig(tops []string) string {
 
 func loadKnownRaceSigs(prop string) map[string]string {
 	out := map[string]string{}
-	b, err := os.ReadFile("/verif/known_findings.txt")
+	b, err := os.ReadFile(filepath.Join(root(), "known_findings.txt"))
 	if err != nil {
 		return out
 	}
